@@ -259,6 +259,10 @@ struct XPrint : Engine {
         long live0 = ledger_live(); cJSON* t = null_tree(k); curdesc = "special tree #" + std::to_string(k) + " (string without text / member without name)";
         take_failed = false; std::string base[2] = { take(LIB(cJSON_PrintUnformatted(t))), take(LIB(cJSON_Print(t))) };
         if (take_failed) V("print-failed", "cJSON_Print* returned NULL"); else { ctr().nontrivial++; if (mode == M_PREALLOC) prealloc_sweep(t, base); else prebuffer_sweep(t, base, "default allocator"); }
+        if (!take_failed && mode == M_STRICT) {   // a string without text prints as "", a member without name under the name "": the output is JSON all the same
+            for (int fmt = 0; fmt < 2; fmt++) { RV dec; if (!S_parse((const uint8_t*)base[fmt].data(), base[fmt].size(), dec)) V("output-not-strict-json", std::string(fmt ? "cJSON_Print" : "cJSON_PrintUnformatted") + " output is not RFC 8259 JSON: \"" + printable(base[fmt].substr(0, 300)) + "\""); }
+            if (strip_ws_outside_strings(base[1]) != base[0]) V("formats-differ-beyond-whitespace", "formatted output minus whitespace != unformatted output");
+        }
         LIBV(cJSON_Delete(t)); if (ledger_live() != live0) V("leak", "allocation balance after the case is " + std::to_string(ledger_live() - live0));
     }
     void run_case(const Case& c, bool vb) override {
